@@ -2,12 +2,27 @@
 
 package taskctl
 
-import "github.com/taskctl/taskctl/pkg/runner"
+import (
+	"time"
+
+	"github.com/taskctl/taskctl/pkg/runner"
+)
 
 // VerifPollGate, if set, is called after the pause that ends every iteration of the scheduler loop, before the loop
 // condition is evaluated again, with the scheduler's task runner (only compiled with the "verif" build tag). The
 // verification harness uses it to park the loop at an iteration boundary and to release exactly one iteration at a time.
 var VerifPollGate func(r runner.Runner)
+
+// VerifPause, if positive, replaces the pause between two iterations of the scheduler loop (50 ms) for schedulers created
+// afterwards. The verification harness shortens it in its step-by-step mode, where every iteration is released explicitly,
+// so that stepping the loop does not move the virtual clock towards the start delays under test.
+var VerifPause time.Duration
+
+func (s *Scheduler) verifInit() {
+	if VerifPause > 0 {
+		s.pause = VerifPause
+	}
+}
 
 func (s *Scheduler) verifGate() {
 	if g := VerifPollGate; g != nil {
